@@ -1,6 +1,8 @@
 package driver
 
 import (
+	"os"
+	"os/exec"
 	"time"
 	"bytes"
 	"encoding/json"
@@ -852,4 +854,80 @@ func hugeRequest(w *simrt.Tape) *request {
 		return &request{Name: "EmcDwc", Parameters: []reqValue{{"EMC", 2}, {"DWC", 3}}, Inputs: []reqInput{{"quickflow", vals}, {"baseflow", vals}}}
 	}
 	return &request{Name: "Sum", Inputs: []reqInput{{"i1", vals}, {"i2", vals}}}
+}
+
+// engine "owsingle": the real ow-single program (cmd/ow-single: main -> sim.RunSingleModelJSON on
+// os.Stdin/os.Stdout) started as an operating-system process, with the request arriving through a
+// pipe, from a regular file, or - the empty request - from the null device.  What the program writes
+// to its standard output must be byte for byte what RunSingleModelJSON writes in-process for the same
+// bytes, and the process must end with status 0.  Only complete, valid requests and requests that are
+// answered with a description (unknown model, no name, nothing at all) are sent: a request whose run
+// would crash a cell goroutine is a known finding of the in-process phases.
+func init() { engines["owsingle"] = engineOwSingle }
+
+func engineOwSingle(rc *RunCtx) *Outcome {
+	o := &Outcome{}
+	w := rc.W
+	bin := os.Getenv("VERIF_OWSINGLE")
+	if bin == "" {
+		panic("harness: VERIF_OWSINGLE not set")
+	}
+	var req *request
+	var tag string
+	for {
+		req, tag = drawRequest(w)
+		if tag == "complete" || tag == "unknown-model" || tag == "no-name" {
+			break
+		}
+	}
+	doc, err := json.Marshal(req)
+	if err != nil {
+		panic(err)
+	}
+	kind := []string{"pipe", "pipe", "file", "file", "null-device"}[w.Choose(5)]
+	if kind == "null-device" {
+		doc = nil
+		tag = "empty"
+	}
+	o.Sample = map[string]interface{}{"request_kind": tag, "model": req.Name, "stdin": kind, "bytes": len(doc)}
+	var want bytes.Buffer
+	sim.RunSingleModelJSON(bytes.NewReader(doc), &want, true)
+	cmd := exec.Command(bin)
+	var got, errOut bytes.Buffer
+	cmd.Stdout, cmd.Stderr = &got, &errOut
+	switch kind {
+	case "pipe":
+		cmd.Stdin = bytes.NewReader(doc)
+	case "file":
+		f, err := os.CreateTemp("", "owsingle-req-*.json")
+		if err != nil {
+			panic(err)
+		}
+		defer os.Remove(f.Name())
+		f.Write(doc)
+		f.Seek(0, 0)
+		defer f.Close()
+		cmd.Stdin = f
+	case "null-device":
+		cmd.Stdin = nil // os/exec connects the null device
+	}
+	runErr := cmd.Run()
+	o.Evals++
+	o.fault("stdin:" + kind)
+	if runErr != nil {
+		o.fail("ow-single-failed", "owsingle/exit", "ow-single ended with %v for a %s request arriving through a %s (stderr: %q, stdout: %q)", runErr, tag, kind, head64(errOut.Bytes(), 300), head64(got.Bytes(), 200))
+		return o
+	}
+	if !bytes.Equal(got.Bytes(), want.Bytes()) {
+		o.fail("ow-single-differs", "owsingle/differs", "ow-single answered a %s request arriving through a %s with %q, RunSingleModelJSON gives %q", tag, kind, head64(got.Bytes(), 300), head64(want.Bytes(), 300))
+		return o
+	}
+	if _, _, perr := parseOneDocument(got.Bytes()); perr != nil {
+		o.fail("not-one-document", "owsingle/not-one-document", "ow-single wrote %q for a %s request (%v)", head64(got.Bytes(), 300), tag, perr)
+		return o
+	}
+	o.Checks += got.Len()
+	o.Nontrivial = true
+	o.probe("ow_single_process:" + kind)
+	return o
 }
